@@ -42,3 +42,17 @@ Proof.
   - specialize (IH s' c' ltac:(lia)). destruct (lf_steps (S n) s' c') as [s'' e'] eqn:E2. cbn [snd] in *.
     rewrite IH, Hg, He. destruct (has_g s); lia.
 Qed.
+
+(* Dynamic (multinomial / slice) transitions grow the trajectory in BOTH time directions from the same initial state object.
+   Integrator.step works on a copy of the edge state, so a gradient evaluated while growing one direction is cached in that
+   direction's copy only and is not visible when the other direction starts from the initial state again (finding G15).
+   grow_both nf nb s c = gradient evaluations of nf steps forward and nb steps backward, both started from s. *)
+Definition grow_both (nf nb : nat) (s : st) (c : nat) : nat := snd (lf_steps nf s c) + snd (lf_steps nb s (c + 3 * nf)).
+Lemma lf_steps_count n s c : snd (lf_steps n s c) = (if has_g s then n else n + Nat.min 1 n).
+Proof.
+  destruct n as [|n]; [cbn; destruct (has_g s); reflexivity|].
+  rewrite leapfrog_grad_count by lia. destruct (has_g s); cbn [Nat.min]; lia.
+Qed.
+Theorem grow_both_count nf nb s c :
+  grow_both nf nb s c = (if has_g s then nf + nb else nf + nb + Nat.min 1 nf + Nat.min 1 nb).
+Proof. unfold grow_both. rewrite !lf_steps_count. destruct (has_g s); lia. Qed.
